@@ -235,6 +235,9 @@ impl<T: WrappedKey> Occupied<T> for OccupiedEntry<'_, T> {
     type Error = Error;
 
     fn get(&self) -> Result<T, Self::Error> {
+        // Always decode from the start of the file: an earlier
+        // `get` on this entry leaves the offset at EOF.
+        fs::seek(&self.fd.0, fs::SeekFrom::Start(0))?;
         Ok(cbor::from_reader(&self.fd)?)
     }
 
@@ -243,8 +246,11 @@ impl<T: WrappedKey> Occupied<T> for OccupiedEntry<'_, T> {
         // cannot delete files with open handles. This isn't
         // a big deal since the code currently doesn't need to
         // support Windows.
+        // Read the key before unlinking so that a failed read
+        // does not lose it.
+        let key = self.get()?;
         fs::unlinkat(self.root, &*self.alias, AtFlags::empty())?;
-        self.get()
+        Ok(key)
     }
 }
 
